@@ -46,7 +46,7 @@ def c14(ctx: Ctx):
     ctx.rule = ("every terminal state of spec/Middleware.tla is one case: all handler call sequences up to MaxCalls over the 12 core calls "
                 "(+ up to ExtMax of the 8 extended calls: WriteHeader(1xx), io.Copy, ResponseController.Flush, body read, interface probe, panic; "
                 "length <= ExtDepth) x strict x errFunc mode x gate (Validator, 3 ValidationHandler forms) for the main request classes; "
-                "up to SideCalls calls for the configurations that vary the gate only (16 request classes over 2 documents x 4 ways of "
+                "up to SideCalls calls for the configurations that vary the gate only (21 request classes over 2 documents x 4 ways of "
                 "configuring AuthenticationFunc x request-side options x sequential/concurrent primers); "
                 "non-trivial = security-bearing or gate-failing request, or non-empty handler script")
     rng = random.Random(ctx.seed)
